@@ -465,14 +465,15 @@ func (ex *Exec) assignTo(st *State, lhs ast.Expr, v Val) {
 			ex.unsupported(l, "assignment to %s", l.Name)
 		}
 		if o.Pkg() != nil && o.Parent() == o.Pkg().Scope() {
-			ex.oblig(st, "global-write", l, "assignment to package-level variable "+l.Name, False)
+			// not assumed afterwards: the rest of the function is still analysed
+			ex.obligNoAssume(st, "global-write", l, "assignment to package-level variable "+l.Name, False)
 			return
 		}
 		ex.setVar(st, o, ex.coerce(st, l, v, o.Type()))
 	case *ast.SelectorExpr:
 		sel, ok := ex.P.Info.Selections[l]
 		if !ok {
-			ex.oblig(st, "global-write", l, "assignment to package-level variable "+ex.exprStr(l), False)
+			ex.obligNoAssume(st, "global-write", l, "assignment to package-level variable "+ex.exprStr(l), False)
 			return
 		}
 		path := sel.Index()
